@@ -1,3 +1,409 @@
-//! C06 — not built yet.
-pub const BUILT: bool = false;
-pub fn run(_rep: &mut vx::Report) {}
+//! C06 — encrypted files interoperate with an independent implementation.
+//!
+//! qpdf is not installed; the independent implementation is `refpdf::crypto`, which is bound
+//! to qpdf and pypdf by having to decrypt all 28 of their fixtures (unit tests of refpdf).
+//!
+//! * `forward`: the reference *encrypts* generated plaintext documents — R2, R3, R4 with the
+//!   /V2 and with the /AESV2 crypt filter, R5, R6; /EncryptMetadata on/off; classic table,
+//!   cross-reference stream, cross-reference stream + object stream — in FULL, with a
+//!   deviation bound over passwords, permissions, content, direct//indirect /Encrypt, explicit
+//!   Identity crypt filter on cleartext metadata, and IV/salt seed. The library must open the
+//!   file with the user and with the owner password and yield the same object graph, page
+//!   text and metadata as for the plaintext original (same layout, written without
+//!   encryption), report the same permissions, and refuse other passwords.
+//! * `reverse`: documents encrypted by the library (C05's programs and writer
+//!   configurations) are decrypted by the reference and compared with the plaintext build.
+use crate::util::enc::{self, Diff, Src};
+use crate::util::encdoc;
+use oxidize_pdf::document::DocumentEncryption;
+use refpdf::crypto::{self as rc, Scheme};
+use refpdf::syntax::Obj;
+use serde_json::json;
+use std::sync::atomic::{AtomicU64, Ordering};
+use vx::{Ctx, Explore, Report};
+
+pub const BUILT: bool = true;
+
+const CONTENT_NAMES: [&str; 3] = ["text-only", "info+xmp+acroform+flate", "awkward-strings+stream-dict-string"];
+
+fn font_res() -> Obj {
+    Obj::dict(vec![("Font", Obj::dict(vec![("F1", Obj::dict(vec![("Type", Obj::name("Font")), ("Subtype", Obj::name("Type1")), ("BaseFont", Obj::name("Helvetica")), ("Encoding", Obj::name("WinAnsiEncoding"))]))]))])
+}
+fn mediabox() -> Obj {
+    Obj::Array(vec![Obj::Int(0), Obj::Int(0), Obj::Int(612), Obj::Int(792)])
+}
+
+/// Plaintext document as indirect objects; catalog = 1, Info = 7.
+fn doc_objects(content: usize) -> Vec<(u32, Obj)> {
+    let mut o: Vec<(u32, Obj)> = Vec::new();
+    let page = |contents: u32, extra: Vec<(&str, Obj)>| {
+        let mut d = vec![("Type", Obj::name("Page")), ("Parent", Obj::Ref(2, 0)), ("MediaBox", mediabox()), ("Resources", font_res()), ("Contents", Obj::Ref(contents, 0))];
+        d.extend(extra);
+        Obj::dict(d)
+    };
+    match content {
+        0 => {
+            o.push((1, Obj::dict(vec![("Type", Obj::name("Catalog")), ("Pages", Obj::Ref(2, 0))])));
+            o.push((2, Obj::dict(vec![("Type", Obj::name("Pages")), ("Kids", Obj::Array(vec![Obj::Ref(3, 0)])), ("Count", Obj::Int(1))])));
+            o.push((3, page(4, vec![])));
+            o.push((4, Obj::stream(vec![], b"BT /F1 12 Tf 72 720 Td (Hello C06 plain text) Tj ET".to_vec())));
+            o.push((7, Obj::dict(vec![("Producer", Obj::str(b"refpdf"))])));
+        }
+        1 => {
+            o.push((
+                1,
+                Obj::dict(vec![
+                    ("Type", Obj::name("Catalog")),
+                    ("Pages", Obj::Ref(2, 0)),
+                    ("Metadata", Obj::Ref(8, 0)),
+                    ("AcroForm", Obj::dict(vec![("Fields", Obj::Array(vec![Obj::Ref(9, 0)])), ("DA", Obj::str(b"/Helv 0 Tf 0 g")), ("NeedAppearances", Obj::Bool(true))])),
+                ]),
+            ));
+            o.push((2, Obj::dict(vec![("Type", Obj::name("Pages")), ("Kids", Obj::Array(vec![Obj::Ref(3, 0), Obj::Ref(5, 0)])), ("Count", Obj::Int(2))])));
+            o.push((3, page(4, vec![("Annots", Obj::Array(vec![Obj::Ref(9, 0)]))])));
+            o.push((4, Obj::stream(vec![], b"BT /F1 12 Tf 72 720 Td (First page with a form field) Tj ET".to_vec())));
+            o.push((5, page(6, vec![])));
+            o.push((6, Obj::stream(vec![("Filter", Obj::name("FlateDecode"))], refpdf::filters::flate_encode(b"BT /F1 14 Tf 72 720 Td (Second page, compressed) Tj ET"))));
+            o.push((
+                7,
+                Obj::dict(vec![("Title", Obj::str(b"Interop title")), ("Author", Obj::str(b"A. Author")), ("Subject", Obj::str(b"Subject of C06")), ("Keywords", Obj::str(b"alpha, beta")), ("Creator", Obj::str(b"vcheck C06")), ("Producer", Obj::str(b"refpdf"))]),
+            ));
+            o.push((8, Obj::stream(vec![("Type", Obj::name("Metadata")), ("Subtype", Obj::name("XML"))], b"<?xpacket begin='' id='W5M0MpCehiHzreSzNTczkc9d'?><x:xmpmeta xmlns:x='adobe:ns:meta/'><rdf:RDF xmlns:rdf='http://www.w3.org/1999/02/22-rdf-syntax-ns#'/></x:xmpmeta><?xpacket end='w'?>".to_vec())));
+            o.push((
+                9,
+                Obj::dict(vec![
+                    ("Type", Obj::name("Annot")),
+                    ("Subtype", Obj::name("Widget")),
+                    ("FT", Obj::name("Tx")),
+                    ("T", Obj::str(b"customer_name")),
+                    ("V", Obj::str(b"Jane Q. Public")),
+                    ("DV", Obj::str(b"default value")),
+                    ("Rect", Obj::Array(vec![Obj::Int(72), Obj::Int(600), Obj::Int(300), Obj::Int(620)])),
+                    ("P", Obj::Ref(3, 0)),
+                ]),
+            ));
+        }
+        _ => {
+            o.push((1, Obj::dict(vec![("Type", Obj::name("Catalog")), ("Pages", Obj::Ref(2, 0)), ("Lang", Obj::str(b"en-US"))])));
+            o.push((2, Obj::dict(vec![("Type", Obj::name("Pages")), ("Kids", Obj::Array(vec![Obj::Ref(3, 0)])), ("Count", Obj::Int(1))])));
+            let mut res = font_res();
+            if let Obj::Dict(d) = &mut res {
+                d.set("XObject", Obj::dict(vec![("Fm1", Obj::Ref(5, 0))]));
+            }
+            o.push((3, Obj::dict(vec![("Type", Obj::name("Page")), ("Parent", Obj::Ref(2, 0)), ("MediaBox", mediabox()), ("Resources", res), ("Contents", Obj::Ref(4, 0))])));
+            o.push((4, Obj::stream(vec![], b"BT /F1 12 Tf 72 720 Td (text \\(with\\) parens \\) and \\\\ backslash) Tj ET /Fm1 Do".to_vec())));
+            // a form XObject whose stream dictionary carries a string (Table 95 /LastModified)
+            o.push((
+                5,
+                Obj::stream(
+                    vec![("Type", Obj::name("XObject")), ("Subtype", Obj::name("Form")), ("BBox", Obj::Array(vec![Obj::Int(0), Obj::Int(0), Obj::Int(10), Obj::Int(10)])), ("LastModified", Obj::str(b"D:20240101000000Z"))],
+                    b"0 0 10 10 re f".to_vec(),
+                ),
+            ));
+            o.push((
+                7,
+                Obj::dict(vec![
+                    ("Title", Obj::str(b"Title (with) unbalanced ) paren \\ backslash")),
+                    ("Author", Obj::str(b"line one\rline two\nline three\r\nend")),
+                    ("Subject", Obj::str(b")(")),
+                    ("Bin", Obj::str(b"\x00\x01\xfe\xff\x80binary")),
+                    ("Empty", Obj::str(b"")),
+                    ("Nested", Obj::Array(vec![Obj::str(b"in array"), Obj::dict(vec![("K", Obj::str(b"in dict in array"))])])),
+                ]),
+            ));
+        }
+    }
+    o
+}
+
+/// (user, owner) as text; the alphabet of C05
+fn password_pair(k: usize) -> (String, String) {
+    encdoc::password_pair(k)
+}
+
+/// Bytes an independent producer hashes for this text password: PDFDocEncoding for R2–R4
+/// (ISO 32000-1 §7.6.3.3), UTF-8 for R5/R6 (all test passwords are SASLprep-stable).
+fn producer_bytes(scheme: Scheme, s: &str) -> Vec<u8> {
+    if scheme.revision() <= 4 {
+        s.chars().map(|c| if c == '€' { 0xA0 } else { c as u32 as u8 }).collect()
+    } else {
+        s.as_bytes().to_vec()
+    }
+}
+
+const LAYOUTS: [(&str, bool, bool); 3] = [("classic-table", false, false), ("xref-stream", true, false), ("xref-stream+object-stream", true, true)];
+const PERMS: [u32; 3] = [0xFFFF_FFFC, 0xFFFF_F0C0, 0xFFFF_F0C4];
+
+struct Fwd {
+    scheme: Scheme,
+    em: bool,
+    layout: usize,
+}
+
+/// Classify one difference between the library's view of the decrypted file and its view of
+/// the plaintext original. Known defects are recognised by their exact signature.
+fn classify(d: &Diff, f: &Fwd, file_key: &[u8], n_objects: u32) -> String {
+    let (_, _, objstm) = LAYOUTS[f.layout];
+    let rc4 = matches!(f.scheme, Scheme::R2 | Scheme::R3 | Scheme::R4Rc4);
+    // strings of objects stored in an object stream are passed through the string cipher
+    // although the stream that contains them was already decrypted
+    if objstm && d.kind == "string" && rc4 {
+        let again = (1..=n_objects + 4).any(|n| rc::rc4(&rc::alg1_object_key(file_key, n, 0, false), &d.a_raw) == d.b_raw);
+        if again {
+            return "C06/strings-in-object-streams-decrypted-a-second-time".into();
+        }
+    }
+    if objstm && !rc4 && d.kind == "unresolvable" && d.b.contains("Failed to decrypt string") {
+        return "C06/strings-in-object-streams-decrypted-a-second-time".into();
+    }
+    // /EncryptMetadata false: the XMP stream is cleartext but gets decrypted
+    if !f.em && f.scheme.revision() >= 4 && d.path == "Root/Metadata" && (d.kind == "stream-data" || (d.kind == "unresolvable" && d.b.contains("decrypt stream"))) {
+        return "C06/cleartext-metadata-stream-is-decrypted".into();
+    }
+    // strings inside stream dictionaries are left as ciphertext
+    if d.kind == "stream-dict-string" {
+        let is_ciphertext = if rc4 {
+            (1..=n_objects + 4).any(|n| rc::rc4(&rc::alg1_object_key(file_key, n, 0, false), &d.b_raw) == d.a_raw)
+        } else {
+            let key = |n: u32| if f.scheme == Scheme::R4Aes { rc::alg1_object_key(file_key, n, 0, true) } else { file_key.to_vec() };
+            (1..=n_objects + 4).any(|n| rc::pdf_aes_decrypt(&key(n), &d.b_raw).map(|p| p == d.a_raw).unwrap_or(false))
+        };
+        if is_ciphertext {
+            return "C06/strings-in-stream-dictionaries-left-encrypted".into();
+        }
+    }
+    format!("C06/decrypted-content-differs/{}", d.kind)
+}
+
+fn forward_section(rep: &mut Report, thorough: bool) {
+    let skipped = AtomicU64::new(0);
+    let compared = AtomicU64::new(0);
+    let n_pw = 6;
+    rep.explore("forward", Explore::dev(if thorough { 2 } else { 1 }), |c: &mut Ctx| {
+        let scheme = *c.pick_from("scheme", &Scheme::ALL);
+        let layout = c.choose("layout", 3);
+        let em = !c.flag("cleartext_metadata");
+        let pwk = c.choose_dev("passwords", n_pw);
+        let p = *c.pick_dev("P", &PERMS);
+        let content = c.choose_dev("content", 3);
+        let indirect = c.choose_dev("encrypt_dict", 2) == 0;
+        let ident = c.choose_dev("metadata_crypt_filter", 2) == 1;
+        let seed = [1u64, 2, 0xFFFF_FFFF_FFFF_FF00][c.choose_dev("seed", 3)];
+        let f = Fwd { scheme, em, layout };
+        c.input(vx::h64(&(scheme, layout, em, pwk, p, content, indirect, ident, seed)));
+        let (lname, xs, os) = LAYOUTS[layout];
+        let (user, owner) = password_pair(pwk);
+        let tag = format!(
+            "{} {lname} EncryptMetadata={em} passwords={} P={p:#010x} content={} encrypt_dict={} metadata_identity_filter={ident} seed={seed}",
+            scheme.name(),
+            encdoc::PASSWORD_NAMES[pwk],
+            CONTENT_NAMES[content],
+            if indirect { "indirect" } else { "direct" }
+        );
+        c.sample(json!({"case": tag}));
+        let objs = doc_objects(content);
+        let n_objects = objs.iter().map(|x| x.0).max().unwrap_or(0);
+        // the plaintext original through the library
+        let plain = rc::plain_file(&objs, 1, Some(7), xs, os);
+        let base = enc::lib_open(&plain, None).and_then(|l| enc::lib_text_and_metadata(&l).map(|tm| (l, tm)));
+        let (bl, (btext, bmeta)) = match base {
+            Ok(x) if !x.0.encrypted => x,
+            other => {
+                skipped.fetch_add(1, Ordering::Relaxed);
+                c.outcome(vx::h64(&("skipped", other.err().map(|e| vx::one_line(&e, 60)))));
+                return;
+            }
+        };
+        {
+            let (d, st) = enc::graph_diff(&bl, &bl, &[("Root", bl.root.clone(), bl.root.clone()), ("Info", bl.info.clone(), bl.info.clone())], &|_, _| false, 4);
+            if !d.is_empty() || st.streams == 0 {
+                skipped.fetch_add(1, Ordering::Relaxed);
+                c.outcome(vx::h64(&("skipped-unwalkable", enc::show_diffs(&d))));
+                return;
+            }
+        }
+        c.nontrivial();
+        compared.fetch_add(1, Ordering::Relaxed);
+        let mut s = rc::EncSettings::new(scheme, &producer_bytes(scheme, &user), &producer_bytes(scheme, &owner));
+        s.p = p as i32;
+        s.encrypt_metadata = em;
+        s.xref_stream = xs;
+        s.objstm = os;
+        s.encrypt_dict_indirect = indirect;
+        s.metadata_identity_filter = ident;
+        s.seed = seed;
+        s.info = Some(7);
+        let e = rc::encrypt_file_ex(&objs, &s);
+        let mut oh = 0u64;
+        let mut fail = |c: &mut Ctx, key: String, detail: String| {
+            oh = vx::hmix(oh, vx::h64(&key));
+            c.fail(key, detail);
+        };
+        // recognised as encrypted, locked
+        match enc::lib_open(&e.bytes, None) {
+            Ok(l) => {
+                if !l.encrypted {
+                    fail(c, "C06/encrypted-file-read-as-unencrypted".into(), format!("{tag}: is_encrypted() is false"));
+                    c.outcome(oh);
+                    return;
+                }
+                if !user.is_empty() {
+                    if l.unlocked_on_open {
+                        fail(c, "C06/opens-without-password".into(), tag.clone());
+                    }
+                    if let Some(Obj::Ref(n, g)) = &l.info {
+                        if let Ok(o) = l.get(*n, *g) {
+                            fail(c, "C06/locked-reader-hands-out-objects".into(), format!("{tag}: {o:?}"));
+                        }
+                    }
+                }
+            }
+            Err(err) => {
+                let key = if !indirect && err.contains("ncryption") { "C06/direct-encrypt-dictionary-rejected".to_string() } else { "C06/encrypted-file-cannot-be-opened".to_string() };
+                fail(c, key, format!("{tag}: {err}"));
+                c.outcome(oh);
+                return;
+            }
+        }
+        for (pw, role) in [(&user, "user"), (&owner, "owner")] {
+            let l = match enc::lib_open(&e.bytes, Some(pw)) {
+                Ok(l) => l,
+                Err(err) => {
+                    // known signature: non-ASCII password of an R2-R4 file is hashed as UTF-8 by the library
+                    let non_ascii = !pw.is_ascii();
+                    let mut key = format!("C06/{role}-password-refused");
+                    if non_ascii && scheme.revision() <= 4 && err.starts_with("unlock") {
+                        let mut s2 = s.clone();
+                        s2.user_pw = user.as_bytes().to_vec();
+                        s2.owner_pw = owner.as_bytes().to_vec();
+                        let e2 = rc::encrypt_file(&objs, &s2);
+                        if enc::lib_open(&e2, Some(pw)).is_ok() {
+                            key = "C06/r2-r4-non-ascii-password-hashed-as-utf8-not-pdfdocencoding".into();
+                        }
+                    }
+                    fail(c, key, format!("{tag}: {role} password {pw:?}: {err}"));
+                    continue;
+                }
+            };
+            if l.perms != Some(p) {
+                fail(c, "C06/permissions-differ".into(), format!("{tag}: /P {p:#010x}, library reports {:?}", l.perms.map(|x| format!("{x:#010x}"))));
+            }
+            let (d, _) = enc::graph_diff(&bl, &l, &[("Root", bl.root.clone(), l.root.clone()), ("Info", bl.info.clone(), l.info.clone())], &|_, _| false, 12);
+            for x in &d {
+                let key = classify(x, &f, &e.file_key, n_objects);
+                fail(c, key, format!("{tag} ({role} password): {}", enc::show_diffs(std::slice::from_ref(x))));
+            }
+            if d.is_empty() {
+                match enc::lib_text_and_metadata(&l) {
+                    Ok((t, m)) => {
+                        if t != btext {
+                            fail(c, "C06/extracted-text-differs".into(), format!("{tag} ({role}): want {btext:?} got {t:?}"));
+                        }
+                        if m != bmeta {
+                            fail(c, "C06/metadata-differs".into(), format!("{tag} ({role}): want {bmeta} got {m}"));
+                        }
+                    }
+                    Err(err) => fail(c, "C06/text-or-metadata-unreadable".into(), format!("{tag} ({role}): {err}")),
+                }
+            }
+        }
+        // other passwords
+        let info = refpdf::file::PdfFile::parse(&e.bytes).ok().and_then(|pf| rc::read_enc_info(&pf).ok());
+        for w in ["", "wrong", "User-pw", "owner-pw ", "same-pw#"] {
+            if w == user || w == owner {
+                continue;
+            }
+            if let Some(i) = &info {
+                if rc::authenticate(i, w.as_bytes()).which().is_some() {
+                    continue;
+                }
+            }
+            if let Ok(true) = enc::lib_accepts(&e.bytes, w) {
+                fail(c, "C06/wrong-password-accepted".into(), format!("{tag}: {w:?} unlocks the file"));
+            }
+        }
+        c.outcome(oh);
+    });
+    rep.note("forward_cells_compared", json!(compared.load(Ordering::Relaxed)));
+    rep.note("forward_cells_skipped_plaintext_original_unreadable", json!(skipped.load(Ordering::Relaxed)));
+}
+
+fn reverse_section(rep: &mut Report, thorough: bool) {
+    let skipped = AtomicU64::new(0);
+    let compared = AtomicU64::new(0);
+    rep.explore("reverse", Explore::dev(if thorough { 2 } else { 1 }), |c: &mut Ctx| {
+        let s = c.choose("strength", 4);
+        let xs = c.flag("xref_stream");
+        let os = c.flag("object_streams");
+        let comp = !c.flag("no_compression");
+        let slow = xs && os; // see C05: seconds per file in the library's writer/reader
+        let (m_pw, m_c, m_s) = match (slow, thorough) {
+            (true, false) => (1, 1, 1),
+            (true, true) => (3, 2, 1),
+            (false, _) => (6, 3, 2),
+        };
+        let pwk = c.choose_dev("passwords", m_pw);
+        let ck = c.choose_dev("content", m_c);
+        let seed = [1u64, 2][c.choose_dev("seed", m_s)];
+        c.input(vx::h64(&(s, xs, os, comp, pwk, ck, seed)));
+        let cfg = encdoc::config(xs, os, comp);
+        let (user, owner) = encdoc::password_pair(pwk);
+        let perms = oxidize_pdf::encryption::Permissions::all();
+        let tag = format!("{} xref_stream={xs} object_streams={os} compress={comp} passwords={} content={} seed={seed}", encdoc::STRENGTHS[s].1, encdoc::PASSWORD_NAMES[pwk], encdoc::CONTENT_NAMES[ck]);
+        c.sample(json!({"case": tag}));
+        let base = match encdoc::baseline(ck, &cfg) {
+            Ok(b) => b,
+            Err(e) => {
+                skipped.fetch_add(1, Ordering::Relaxed);
+                c.outcome(vx::h64(&("skipped", vx::one_line(&e, 60))));
+                return;
+            }
+        };
+        c.nontrivial();
+        compared.fetch_add(1, Ordering::Relaxed);
+        let de = DocumentEncryption::new(user.clone(), owner.clone(), perms, encdoc::STRENGTHS[s].0);
+        let ebytes = match encdoc::write_document(ck, &cfg, Some((&de, seed))) {
+            Ok(b) => b,
+            Err(e) => {
+                c.fail("C06/library-encrypted-build-fails", format!("{tag}: {e}"));
+                return;
+            }
+        };
+        if xs && encdoc::xref_stream_trailer_lacks_encrypt(&ebytes) {
+            c.fail("C06/library-xref-stream-trailer-lacks-Encrypt-and-ID", format!("{tag}: an independent reader finds no /Encrypt and no /ID in the cross-reference stream dictionary and sees ciphertext"));
+            c.outcome(1);
+            return;
+        }
+        let base_lib = match base.open() {
+            Ok(l) => l,
+            Err(e) => {
+                c.fail("C06/plaintext-build-no-longer-readable", format!("{tag}: {e}"));
+                return;
+            }
+        };
+        let cs = encdoc::Case { tag: tag.clone(), user: &user, owner: &owner, perms: perms.bits(), base: &base, base_lib: &base_lib };
+        let mut oh = 0u64;
+        for (k, d) in encdoc::check_reference(&ebytes, &cs) {
+            oh = vx::hmix(oh, vx::h64(&k));
+            c.fail(format!("C06/{k}"), d);
+        }
+        c.outcome(oh);
+    });
+    rep.note("reverse_cells_compared", json!(compared.load(Ordering::Relaxed)));
+    rep.note("reverse_cells_skipped_plaintext_build_unreadable", json!(skipped.load(Ordering::Relaxed)));
+}
+
+pub fn run(rep: &mut Report) {
+    let thorough = rep.tier.is_thorough();
+    rep.rule(
+        "forward: one execution = (scheme, layout, EncryptMetadata) in FULL with at most k non-default choices among (password pair, P, content, \
+         direct/indirect /Encrypt, Identity crypt filter on metadata, seed); reverse: (strength, writer configuration) in FULL with at most k non-default \
+         choices among (password pair, content, seed); non-trivial = the plaintext original is readable by the library, so the encrypted file was compared",
+    );
+    rep.assume("refpdf::crypto stands in for qpdf: it decrypts all 28 qpdf/pypdf fixtures; its writer round-trips through its reader for every scheme/layout (unit tests)");
+    rep.assume("object streams written by the reference follow ISO 32000-1 7.5.7/7.6.2: strings inside are not encrypted individually, the object stream is encrypted as a stream");
+    rep.assume("passwords of R2-R4 files are PDFDocEncoding bytes, of R5/R6 files UTF-8 bytes (SASLprep-stable characters only)");
+    rep.assume("the plaintext original (same layout, not encrypted) as read by the library defines 'same objects, text and metadata'");
+    forward_section(rep, thorough);
+    reverse_section(rep, thorough);
+}
